@@ -1565,6 +1565,15 @@ class TLSConnection(TLSRecordLayer):
                             "Server selected signature algorithm we did "
                             "not advertise"):
                         yield result
+                # ... and it has to fit the key of the server's certificate
+                # (an RSA key cannot verify an ECDSA or EdDSA signature etc.)
+                if signature_scheme not in self._sigHashesToList(
+                        settings, certList=serverCertChain, version=(3, 4)):
+                    for result in self._sendError(
+                            AlertDescription.illegal_parameter,
+                            "Signature algorithm in CertificateVerify does "
+                            "not match the server's certificate"):
+                        yield result
 
             if signature_scheme in (SignatureScheme.ed25519,
                                     SignatureScheme.ed448,
